@@ -751,6 +751,16 @@ def install_std_models(P):
             raise Panic('mid > len')
         return [SliceRef(sl.arr, sl.start, k.v), SliceRef(sl.arr, sl.start + k.v, sl.n - k.v)]
 
+    @M(r'^core::slice::<impl \[.+\]>::(chunks|chunks_exact)$', regex=True)
+    def _(m, fr, a, mm):
+        sl = as_slice(a[0])
+        k = conc_usize(a[1], 'chunk size')
+        if k == 0:
+            raise Panic('chunk size must be non-zero')
+        if mm.group(1) == 'chunks_exact':
+            sl = SliceRef(sl.arr, sl.start, sl.n - sl.n % k)
+        return Opaque('chunks', [sl, k, 0])
+
     @M(r'^core::slice::<impl \[.+\]>::fill$', regex=True)
     def _(m, fr, a, mm):
         sl = as_slice(a[0])
@@ -800,6 +810,33 @@ def install_std_models(P):
     @M(r'^(String::is_empty|core::str::<impl str>::is_empty)$', regex=True)
     def _(m, fr, a, mm):
         return as_slice(a[0]).n == 0
+
+    @M(r'^Vec::<.*>::(extend_from_slice|append)$', regex=True)
+    def _(m, fr, a, mm):
+        v = _load1(a[0])
+        src = as_slice(a[1]) if mm.group(1) == 'extend_from_slice' else None
+        if src is not None:
+            v.items.extend(copyval(x) for x in src.values())
+        else:
+            o = _load1(a[1])
+            v.items.extend(o.items)
+            del o.items[:]
+        return []
+
+    @M(r'^(String::from_utf8|String::from_utf8_unchecked|String::from_utf8_lossy)$', regex=True)
+    def _(m, fr, a, mm):
+        v = _load1(a[0])
+        bs = list(v.items) if isinstance(v, Vec) else as_slice(v).values()
+        for b in bs:
+            if not isinstance(b, I):
+                raise Unsupported('from_utf8 of non-byte elements')
+            if b.sym():
+                if m.branch_bool(mk_bool(z3.UGE(b.z(), 128))):
+                    raise Unsupported('from_utf8 of possibly non-ASCII bytes')
+            elif b.v > 127:
+                raise Unsupported('from_utf8 of non-ASCII bytes')
+        s_ = Vec(bs, True)
+        return s_ if mm.group(1) == 'String::from_utf8_unchecked' else (Enum('Ok', [s_]) if mm.group(1) == 'String::from_utf8' else s_)
 
     @M(r'^(String::truncate|Vec::<.*>::truncate)$', regex=True)
     def _(m, fr, a, mm):
